@@ -86,7 +86,7 @@ def run(ctx):
                             "non-trivial = more than one declaration")
     ctx.assumptions += ["the bridging header (objc.swift.bridging_header) and the yaml out_file mode list declarations in source order by construction; "
                         "they are not configured here (recorded in DESIGN.md as order-dependent outputs)"]
-    n = ctx.n(110, 1500)
+    n = ctx.n(260, 3000)
     progs = []
     # ---- phase 1: parse the original to learn the dependency graph ----------------------------
     todo1 = []
